@@ -29,7 +29,9 @@
 //                                 the mode)  [extension, see NOTES.md] | 9 re-initialise T in place: disable, initialize(same
 //                                 descriptor, same mask, mode'), enable if it was enabled or arg&4; mode' by arg&3: 0 the other
 //                                 mode, 1 the same mode ("same everything"), 2 one-shot, 3 persistent.  The model takes the
-//                                 mode of the LAST successful initialize().
+//                                 mode of the LAST successful initialize().  (arg>>3)&7 (round 6) also gives it a NEW MASK: 0 keep,
+//                                 1 R, 2 W, 3 R|W, 4 swap/narrow (R->W, W->R, RW->R), 5 widen to R|W, 6 none - e.g. a sibling on
+//                                 the same descriptor that is in the running dispatch loses the condition the descriptor is ready for.
 //                                 | 10 recycle descriptor F (round 5): close both ends, retire all events of F, open a new pair
 //                                 of the same kind whose watched end gets the SAME descriptor number, watch it again.  arg&1:
 //                                 0 = close while the events are still enabled and retire them afterwards, 1 = retire first;
@@ -177,6 +179,7 @@ struct Flags {   // shape of the case (both back-ends or'ed)
   bool nt = false, err_ambiguous = false, reinit_in_cb = false;
   bool remode_to_oneshot = false, remode_to_persist = false, remode_same = false, remode_second_life = false, remode_fresh = false, remode_in_cb = false, init_twice = false;
   bool recycle_in_cb = false, recycle_outside = false, close_before_retire = false, rewatch_old_object = false, new_event_old_alive = false, cb_on_recycled = false, obligations = false;
+  bool remask = false, remask_in_cb = false, remask_sibling_in_cb = false, remask_pending_sibling_loses_ready_condition = false, remask_to_not_ready_condition = false;
   bool intr_blocked = false, intr_eintr = false, intr_with_enabled_idle = false, intr_not_blocking = false;
   int callbacks = 0;
 };
@@ -366,6 +369,7 @@ struct Run {
       fail("initialize() of disabled " + evname(t) + " returned false"); return false;
     }
     t.oneshot = oneshot; if (oneshot) t.ever_oneshot = true;
+    t.mask = mask; fds[fdi].passmask |= mask;   // the model takes mask and mode of the last successful initialize()
     if (pass_open) t.touched_pass = pass;
     return true;
   }
@@ -458,7 +462,7 @@ struct Run {
     if (!err.empty()) return;
     TRACE(" %s action %s tk=%d sel=%d arg=%d", self ? "callback" : "outside", kActName[a.action], a.tk, a.sel, a.arg);
     // Attempts count, not effects: whether an action finds a target may itself depend on what another callback did before.
-    if (self && a.action != A_DISABLE_SELF && a.action != A_READ && !((a.action == A_ENABLE || a.action == A_DISABLE || a.action == A_REMODE) && a.tk == T_SELF))
+    if (self && a.action != A_DISABLE_SELF && a.action != A_READ && !((a.action == A_ENABLE || a.action == A_DISABLE || (a.action == A_REMODE && ((a.arg >> 3) & 7) == 0)) && a.tk == T_SELF))
       actors.insert(self->fdi);
     switch (a.action) {
       case A_DISABLE_SELF: if (self) do_disable(*self); break;
@@ -559,13 +563,32 @@ struct Run {
         }
         break; }
       case A_REMODE: {
-        // re-initialise in place: same descriptor, same mask, possibly another mode (round 4)
+        // re-initialise in place: same descriptor, possibly another mode (round 4) and/or another mask (round 6)
         auto t = pick_event(self, a.tk, a.sel); if (!t || fds[t->fdi].w < 0) break;
-        if (t.get() != self) touch(self, *t, false, false);
         bool was_enabled = t->enabled, was_oneshot = t->oneshot, fired_before = t->fires > 0;
         bool want = (a.arg & 3) == 0 ? !was_oneshot : (a.arg & 3) == 1 ? was_oneshot : (a.arg & 3) == 2;
+        int old_mask = t->mask, new_mask = old_mask;
+        switch ((a.arg >> 3) & 7) {
+          case 1: new_mask = kR; break; case 2: new_mask = kW; break; case 3: new_mask = kR | kW; break;
+          case 4: new_mask = (old_mask == kR) ? kW : (old_mask == kW) ? kR : (old_mask == (kR | kW)) ? kR : kW; break;   // swap / narrow
+          case 5: new_mask = old_mask | kR | kW; break;                                                                // widen
+          case 6: new_mask = 0; break;
+          default: break;
+        }
+        new_mask = fix_mask(fds[t->fdi].kind, new_mask);
+        // a sibling of the acting event that is ready, enabled and not yet served in this pass loses the ready condition
+        bool pending_victim = self && t.get() != self && t->fdi == self->fdi && t->enabled && t->fired_pass != pass &&
+                              (old_mask & fds[t->fdi].snap) && !(new_mask & fds[t->fdi].snap);
+        if (t.get() != self) touch(self, *t, false, false);
         do_disable(*t);
-        if (!do_initialize(*t, t->fdi, t->mask, want)) break;
+        if (!do_initialize(*t, t->fdi, new_mask, want)) break;
+        if (new_mask != old_mask) {
+          fl.remask = true;
+          if (self) fl.remask_in_cb = true;
+          if (self && t.get() != self && t->fdi == self->fdi) fl.remask_sibling_in_cb = true;
+          if (pending_victim && (was_enabled || (a.arg & 4))) fl.remask_pending_sibling_loses_ready_condition = true;
+          if (!(new_mask & fds[t->fdi].snap) && new_mask) fl.remask_to_not_ready_condition = true;
+        }
         if (t->oneshot != was_oneshot) { (t->oneshot ? fl.remode_to_oneshot : fl.remode_to_persist) = true; (fired_before ? fl.remode_second_life : fl.remode_fresh) = true; }
         else fl.remode_same = true;
         if (self) fl.remode_in_cb = true;
@@ -760,6 +783,11 @@ std::string run(const Scenario &s, CaseInfo &info) {
   info.cls_if(fl.remode_fresh, "reinit_mode_change_before_first_callback");
   info.cls_if(fl.init_twice, "initialize_twice_at_creation");
   info.cls_if(fl.remode_in_cb, "reinit_in_place_inside_callback");
+  info.cls_if(fl.remask, "reinit_same_fd_new_mask");
+  info.cls_if(fl.remask_in_cb, "reinit_same_fd_new_mask_inside_callback");
+  info.cls_if(fl.remask_sibling_in_cb, "cb_reinits_sibling_on_same_descriptor_with_new_mask");
+  info.cls_if(fl.remask_pending_sibling_loses_ready_condition, "pending_sibling_reenabled_without_the_ready_condition");
+  info.cls_if(fl.remask_to_not_ready_condition, "new_mask_only_has_conditions_the_descriptor_is_not_ready_for");
   info.cls_if(fl.recycle_in_cb, "descriptor_recycled_in_callback");
   info.cls_if(fl.recycle_outside, "descriptor_recycled_between_passes");
   info.cls_if(fl.close_before_retire, "descriptor_closed_while_events_enabled_then_retired");
@@ -851,15 +879,20 @@ SubDef def = [] {
             case 2: return {A_ENABLE, T_SELF, 0, 0};
             case 3: return {A_DESTROY, T_SELF, 0, 0};
             case 7: return {A_REMODE, T_SELF, 0, rng(0, 7)};
-            case 8: return {A_REMODE, T_COLD, rng(0, 7), rng(0, 7)};
+            case 8: return {A_REMODE, T_COLD, rng(0, 7), rng(0, 63)};
             case 9: return {A_RECYCLE, T_COLD, rng(0, 7), rng(0, 255)};
             case 4: return {A_CREATE, T_COLD, rng(0, 7), rng(0, 15)};
             case 5: return {A_CLOSEFD, T_COLD, rng(0, 7), 0};
             default: return {A_READ, 0, 0, pick({{3, 0}, {2, -1}}) < 0 ? rng(0, 2999) : rng(0, 8)};
           }
         }
-        int64_t a = pick({{2, A_DISABLE_SELF}, {3, A_ENABLE}, {5, A_DISABLE}, {5, A_DESTROY}, {2, A_CREATE}, {4, A_REPLACE}, {1, A_CLOSEFD}, {3, A_READ}, {1, A_REINIT}, {3, A_REMODE}, {3, A_RECYCLE}});
+        int64_t a = pick({{2, A_DISABLE_SELF}, {3, A_ENABLE}, {5, A_DISABLE}, {5, A_DESTROY}, {2, A_CREATE}, {4, A_REPLACE}, {1, A_CLOSEFD}, {3, A_READ}, {1, A_REINIT}, {4, A_REMODE}, {3, A_RECYCLE}});
         if (a == A_RECYCLE) return {a, pick({{5, T_SELF}, {1, T_HOT}, {2, T_COLD}, {1, T_RAW}}), rng(0, 15), rng(0, 255)};
+        if (a == A_REMODE) {   // half of them with a new mask, mostly on a sibling of the same descriptor
+          bool remask = rng(0, 1);
+          int64_t tkr = remask ? pick({{9, T_SAMEFD}, {2, T_HOT}, {1, T_COLD}, {1, T_RAW}, {2, T_SELF}}) : pick({{2, T_SAMEFD}, {2, T_HOT}, {1, T_COLD}, {1, T_RAW}, {4, T_SELF}});
+          return {a, tkr, rng(0, 15), rng(0, 7) + (remask ? 8 * pick({{1, 1}, {3, 2}, {1, 3}, {6, 4}, {1, 5}, {1, 6}}) : 0)};
+        }
         int64_t tk = a == A_REMODE ? pick({{2, T_SAMEFD}, {2, T_HOT}, {1, T_COLD}, {1, T_RAW}, {4, T_SELF}}) : pick({{3, T_SAMEFD}, {6, T_HOT}, {2, T_COLD}, {2, T_RAW}, {1, T_SELF}});
         return {a, tk, rng(0, 15), a == A_READ ? (rng(0, 1) ? rng(0, 8) : rng(0, 2999)) : rng(0, 15)};
       };
@@ -890,7 +923,7 @@ SubDef def = [] {
         }
         if (p && rng(0, 3) == 0) {
           int64_t a = pick({{4, A_ENABLE}, {2, A_DISABLE}, {1, A_DESTROY}, {2, A_CREATE}, {1, A_REPLACE}, {1, A_CLOSEFD}, {3, A_REMODE}, {3, A_RECYCLE}});
-          mk(OUT, {a, T_RAW, rng(0, 15), a == A_RECYCLE ? rng(0, 255) : rng(0, 7)});
+          mk(OUT, {a, T_RAW, rng(0, 15), a == A_RECYCLE ? rng(0, 255) : a == A_REMODE ? rng(0, 63) : rng(0, 7)});
         }
       }
       return sc;
